@@ -554,3 +554,73 @@ pub fn nucleo_cols() {
         writeln!(o, "{}", l).unwrap();
     }
 }
+
+
+/// `hn capacity`: the reservation counter driven past 2^32 by batches whose iterators report absurd lengths (and yield
+/// nothing): afterwards no index may be handed out a second time - a push has to fail (or get a fresh index), never an
+/// index that already belongs to an item - and the existing items keep their values.  Prints `K ok <case>` /
+/// `K fail capacity <case> :: <what>` (same format as the column probe).
+pub fn capacity() {
+    use std::panic::{catch_unwind, AssertUnwindSafe};
+    use std::sync::Arc;
+    struct Liar(usize);
+    impl Iterator for Liar {
+        type Item = u32;
+        fn next(&mut self) -> Option<u32> {
+            None
+        }
+    }
+    impl ExactSizeIterator for Liar {
+        fn len(&self) -> usize {
+            self.0
+        }
+    }
+    let prev = std::panic::take_hook();
+    std::panic::set_hook(Box::new(|_| {}));
+    for (case, n0, first, second) in [
+        ("past-2^32-by-50", 100u32, u32::MAX as usize - 1000, 951usize),
+        ("past-2^32-by-1", 40u32, u32::MAX as usize - 100, 62usize),
+        ("exactly-2^32", 10u32, u32::MAX as usize - 9, 0usize),
+    ] {
+        let r = catch_unwind(AssertUnwindSafe(|| -> Result<(), String> {
+            let nucleo: nucleo::Nucleo<u32> = nucleo::Nucleo::new(nucleo::Config::DEFAULT, Arc::new(|| ()), Some(1), 1);
+            let inj = nucleo.injector();
+            let fill = |v: &u32, cols: &mut [nucleo::Utf32String]| cols[0] = v.to_string().into();
+            for i in 0..n0 {
+                let idx = inj.push(i, fill);
+                if idx != i {
+                    return Err(format!("push {i} was handed index {idx}"));
+                }
+            }
+            let _ = catch_unwind(AssertUnwindSafe(|| inj.extend(Liar(first), fill)));
+            if second > 0 {
+                let _ = catch_unwind(AssertUnwindSafe(|| inj.extend(Liar(second), fill)));
+            }
+            let before = inj.injected_items();
+            for k in 0..3u32 {
+                if let Ok(idx) = catch_unwind(AssertUnwindSafe(|| inj.push(4242 + k, fill))) {
+                    if idx < n0 {
+                        return Err(format!("after the reservation counter passed 2^32 a push was handed index {idx}, which belongs to an earlier push"));
+                    }
+                }
+            }
+            for i in 0..n0 {
+                match inj.get(i) {
+                    Some(item) if *item.data == i && item.matcher_columns[0].to_string() == i.to_string() => {}
+                    Some(item) => return Err(format!("item {i} changed: value {} columns {}", item.data, item.matcher_columns[0])),
+                    None => return Err(format!("item {i} is gone")),
+                }
+            }
+            if inj.injected_items() < before {
+                return Err(format!("injected_items went down from {before} to {}", inj.injected_items()));
+            }
+            Ok(())
+        }));
+        match r {
+            Ok(Ok(())) => println!("K ok {case}"),
+            Ok(Err(w)) => println!("K fail capacity {case} :: {w}"),
+            Err(_) => println!("K fail capacity {case} :: the probe panicked outside the calls that are allowed to refuse"),
+        }
+    }
+    std::panic::set_hook(prev);
+}
